@@ -31,6 +31,17 @@ MC_EdgeStore == [main |-> [t |-> << 0, 1, 2 >>, x |-> << 4, 5 >>], step |-> [x |
 MC_AsksEdge == { << "main", "t" >>, << "main", "x" >>, << "step", "x" >> }
 MC_CutsZero == { NoCut, 0 }
 
+(* Model.MaxTime against stores that are longer than MaxTime+1: the step group has one point per sweep (5),   *)
+(* the initial group has its own horizon (4 points); MaxTime is set to 1 (and back to the default 100) between  *)
+(* calls; cutoff 3 is larger than MaxTime = 1, truncates step:x and lies beyond the end of main:t               *)
+MC_HorizonStore == [main |-> [t |-> << 0, 1, 2 >>, x |-> << 4, 5, 6 >>],
+                    step |-> [x |-> << 8, 9, 10, 11, 12 >>], initial |-> [x |-> << 20, 21, 22, 23 >>]]
+MC_AsksHorizon == { << "main", "t" >>, << "step", "x" >>, << "initial", "x" >> }
+MC_CutsHorizon == { NoCut, 3 }
+MC_MaxTimesNone == {}
+MC_MaxTimesLow == { 1, 100 }
+MC_MaxTimesAll == { 0, 1, 100 }
+
 MC_RMain == { "main" }
 MC_RMainStep == { "main", "step" }
 
